@@ -26,7 +26,7 @@ RULE = (
     "(1) small_*: for prime-order curves over F_p found by brute-force point counting (quick p in {11,23,31}; thorough every prime 11..47, 2-3 "
     "curves each) EVERY group element in EVERY Jacobian scaling z=1..p-1, plus the library-made forms (-P, results of "
     "*, + before/after scale(), table results, to_affine() Points, (-P).to_affine(), -Point, INFINITY) is enumerated: all ordered operand pairs for +, "
-    "all operands for double / negation / x() / y() / scale() / to_affine() / == on a representation sub-grid, all scalars 0..2n (+ a few larger) for * "
+    "all operands for double / negation / x() / y() / scale() / to_affine() / == on a representation sub-grid, all scalars 0..2n (+ a few larger) and the NEGATIVE scalars -1..-(2n+1), -(3n+1) .. -(2^40 n + 12345) (k*P = -(|k|*P); a refusal is not judged, a wrong point is) for * "
     "with order, without order and with the precomputed table (generator=True), affine Point * k, k * P; mul_add for all (k1,k2) in 0..n+1 on an operand "
     "sub-grid and for all operand points on a scalar sub-grid. Oracle: vlib/ecref affine chord-and-tangent law with explicit infinity (addition table "
     "built entry by entry, checked to be the cyclic group); x() and y() of a library result must BE the affine coordinates 0..p-1 (a congruent value outside that range is a wrong result - it used to be reduced by the harness, which hid three defects, see KNOWN_FINDINGS). Enumerated cases are distinct by construction; non-trivial = an operand at infinity, equal "
@@ -49,7 +49,7 @@ ASSUMPTIONS = [
     "the known finding O11 is recognised by re-running the failing case with PointJacobi._add_with_z_1 fed reduced coordinates: it is excluded only if "
     "that makes the result correct AND the call saw congruent-but-unequal raw operands",
 ]
-REQUIRED_CLASSES = ["reuse.same-second-operand-other-first", 
+REQUIRED_CLASSES = ["reuse.same-second-operand-other-first", "small.mul.k<0.answered.table", 
     "small.add.equal-operands", "small.add.inverse-operands", "small.add.infinity-operand", "small.add.both-z=1", "small.add.z1==z2!=1",
     "small.add.one-z=1", "small.add.z1!=z2", "small.add.unreduced-Y-operand", "small.add.affine-Point-operand", "small.add.lib-made-operand",
     "small.mul.table", "small.mul.naf-with-order", "small.mul.naf-without-order", "small.mul.affine-Point", "small.mul.k=0", "small.mul.k=n",
@@ -340,9 +340,14 @@ def small_run(S, case):
         return (bool(A == B), bool(A != B))
     if op == "mul":
         k = case["k"]
-        if case.get("mode") == "rmul":
-            return aff(k * A, p)
-        return aff(A * k, p)
+        try:
+            if case.get("mode") == "rmul":
+                return aff(k * A, p)
+            return aff(A * k, p)
+        except Exception:
+            if k < 0:
+                raise Skip()  # a negative scalar may be refused
+            raise
     if op == "mul_add":
         B = _mode_build(S, case["B"], case.get("modeB", "ord"))
         return aff(A.mul_add(case["k1"], B, case["k2"]), p)
@@ -524,7 +529,11 @@ def bulk_small_unary(tier, shard, nshards, rec, rng):
 
 
 def mul_scalars(n):
-    return list(range(0, 2 * n + 1)) + [2 * n + 1, 3 * n, 3 * n + 1, 4 * n - 1, 4 * n, 4 * n + 1, 5 * n + 2, 8 * n + 3, (1 << 16) + 1]
+    pos = list(range(0, 2 * n + 1)) + [2 * n + 1, 3 * n, 3 * n + 1, 4 * n - 1, 4 * n, 4 * n + 1, 5 * n + 2, 8 * n + 3, (1 << 16) + 1]
+    # NEGATIVE scalars: k*P = -(|k|*P) by the group law.  An implementation may refuse them (an exception is not judged for k < 0);
+    # a point that is not the group's answer is a wrong result
+    neg = list(range(-2 * n - 1, 0)) + [-(3 * n + 1), -(5 * n + 2), -(6 * n + 5), -(8 * n + 3), -(11 * n + 5), -(23 * n + 11), -((1 << 16) + 1), -((1 << 40) * n + 12345)]
+    return pos + neg
 
 
 def bulk_small_mul(tier, shard, nshards, rec, rng):
@@ -573,8 +582,13 @@ def bulk_small_mul(tier, shard, nshards, rec, rng):
                     except Skip:
                         continue
                     except Exception:
+                        if k < 0:
+                            rec.cls("small.mul.k<0.refused")
+                            continue
                         ok = False
                     evals += 1
+                    if k < 0:
+                        rec.cls("small.mul.k<0.answered" + (".table" if mode == "tab" else ""))
                     if not ok:
                         f = _bulk_fail(S, dict(cv=key, op="mul", A=rep, k=k, mode=mode), rec)
                         if f is not None:
